@@ -122,7 +122,7 @@ def cases(ctx):
             if ctx.mine(i):
                 yield "adsb", {"cs": rs(), "tc": tc, "cat": cat, "df": 17, "pos": 0, "ch2": "A"}
             i += 1
-    for k in range(ctx.share(200000 if quick else 1000000)):
+    for k in range(ctx.share(200000 if quick else 4000000)):
         s = rs() if k % 5 else rng.choice(("        ", "AAAAAAAA", "99999999", "Z       ", "       Z", "KLM1023 "))
         c = {"cs": s, "tc": rng.randrange(1, 5), "cat": rng.randrange(8), "df": rng.choice((17, 18, 20, 21)),
              "pos": rng.randrange(8), "ch2": rng.choice(LEGAL), "lower": k % 7 == 0}
